@@ -1,6 +1,10 @@
 import ObiVerif.Model.Tax
 import ObiVerif.Lemmas.Tax
 import ObiVerif.Lemmas.TaxExample
+import ObiVerif.Model.TaxLoad
+import ObiVerif.Lemmas.TaxIter
+import ObiVerif.Lemmas.TaxStr
+import ObiVerif.Lemmas.TaxLoad
 /-!
 # C14 — taxonomy queries agree with the tree (property theorems)
 
@@ -461,5 +465,231 @@ example : ∃ b, restrictTo exT 6 [5, 2] 9 = .ok b ∧
 example : ∃ b, requireRanks exT 6 ["genus", "species"] 10 = .ok b ∧
     (b = true ↔ ∃ x, resolve exT 10 = some x ∧ ∀ r ∈ ["genus", "species"], ∃ a, Anc exT a x ∧ rankIs exT r a = true) :=
   (requireRanks_spec exT_wf exT_fuel exT_aliasOK ["genus", "species"] (by simp) 10).2 (by decide)
+
+/-! ## 8. the taxon iterators drained into a slice (`ITaxonSet` of iterator.go, filter_on_*.go)
+
+`src` is the iteration order of the source (the keys of the `nodes` map in Go's map order, or a slice);
+the filters keep that order. -/
+
+open ObiVerif.TaxLoad in
+/-- `src.IFilterOnSubcladeOf(c)` yields exactly the taxa of the source lying in the clade of `c`, in
+the order of the source, each as often as the source lists it (once for a `TaxonSet`) -/
+theorem filterSubclade_spec (wf : WF t root depth) (hf : FuelOK t fuel) (c : Nat) (src : List Nat)
+    (hsrc : ∀ x ∈ src, ∃ n, t.node x = some n) :
+    ∃ l, filterSubclade t fuel c src = .ok l ∧ (∀ x, x ∈ l ↔ x ∈ src ∧ Anc t c x) ∧
+      l.Sublist src ∧ (src.Nodup → l.Nodup) := by
+  refine ⟨_, filterSubclade_ok wf hf c src hsrc, ?_, List.filter_sublist, fun h => h.filter _⟩
+  intro x
+  simp only [List.mem_filter, List.contains_iff_mem]
+  constructor
+  · rintro ⟨h1, h2⟩
+    obtain ⟨n, hn⟩ := hsrc x h1
+    exact ⟨h1, (mem_pathOf_iff wf hf hn c).1 h2⟩
+  · rintro ⟨h1, h2⟩
+    obtain ⟨n, hn⟩ := hsrc x h1
+    exact ⟨h1, (mem_pathOf_iff wf hf hn c).2 h2⟩
+
+open ObiVerif.TaxLoad in
+/-- `src.IFilterOnTaxRank(r)` yields exactly the taxa of the source whose own rank is `r` -/
+theorem filterRank_spec (r : String) (src : List Nat) :
+    (∀ x, x ∈ filterRank t r src ↔ x ∈ src ∧ rankIs t r x = true) ∧
+      (filterRank t r src).Sublist src ∧ (src.Nodup → (filterRank t r src).Nodup) := by
+  refine ⟨?_, List.filter_sublist, fun h => h.filter _⟩
+  intro x
+  simp only [filterRank, List.mem_filter, rankIs]
+  exact Iff.rfl
+
+open ObiVerif.TaxLoad in
+/-- `src.IFilterBelongingSubclades(clades)`: no clade = the source unchanged; otherwise exactly the taxa
+of the source lying in the clade of one of `clades` (the one- and many-clade code paths agree) -/
+theorem filterBelonging_spec (wf : WF t root depth) (hf : FuelOK t fuel) (clades src : List Nat)
+    (hsrc : ∀ x ∈ src, ∃ n, t.node x = some n) :
+    ∃ l, filterBelonging t fuel clades src = .ok l ∧
+      (∀ x, x ∈ l ↔ x ∈ src ∧ (clades = [] ∨ ∃ c ∈ clades, Anc t c x)) ∧
+      l.Sublist src ∧ (src.Nodup → l.Nodup) := by
+  match clades with
+  | [] => exact ⟨src, rfl, by simp, List.Sublist.refl _, id⟩
+  | [c] =>
+    obtain ⟨l, h1, h2, h3, h4⟩ := filterSubclade_spec wf hf c src hsrc
+    exact ⟨l, h1, by intro x; rw [h2 x]; simp, h3, h4⟩
+  | c :: c' :: cs =>
+    refine ⟨_, filterBelongingMany_ok wf hf (c :: c' :: cs) src hsrc, ?_, List.filter_sublist, fun h => h.filter _⟩
+    intro x
+    simp only [List.mem_filter, List.any_eq_true, List.contains_iff_mem]
+    constructor
+    · rintro ⟨h1, a, ha, hac⟩
+      obtain ⟨n, hn⟩ := hsrc x h1
+      exact ⟨h1, Or.inr ⟨a, hac, (mem_pathOf_iff wf hf hn a).1 ha⟩⟩
+    · rintro ⟨h1, h2⟩
+      obtain ⟨n, hn⟩ := hsrc x h1
+      rcases h2 with h2 | ⟨a, hac, ha⟩
+      · cases h2
+      · exact ⟨h1, a, (mem_pathOf_iff wf hf hn a).2 ha, hac⟩
+
+open ObiVerif.TaxLoad in
+/-- `taxonomic_path` (`TaxonSlice.String`) lists the items `taxid@name@rank` of the path from the root
+down to the taxon: splitting it at `|` gives them back (when no name or rank holds a `|`) -/
+theorem pathString_items (name rank : Nat → Bytes) (p : List Nat) (hp : p ≠ [])
+    (h : ∀ x ∈ p, (124 : UInt8) ∉ pathItem name rank x) :
+    splitOn 124 (pathString name rank p) = p.reverse.map (pathItem name rank) := by
+  apply splitOn_joinBytes
+  · simpa using hp
+  · intro a ha
+    obtain ⟨x, hx, rfl⟩ := List.mem_map.1 ha
+    exact h x (List.mem_reverse.1 hx)
+
+/-! ## 9. the textual forms of a taxid accepted by `Taxonomy.Taxon(string)` -/
+
+open ObiVerif.TaxLoad in
+/-- the decimal form: `Taxon(strconv.Itoa(n))` looks `n` up -/
+theorem taxid_decimal_roundtrip (n : Nat) (h : n < 2 ^ 63) : parseTaxidString (showNat n) = .id n := by
+  simp [parseTaxidString, atoi_showNat' n h]
+
+open ObiVerif.TaxLoad in
+/-- the `TX:` form inside any text: `pre ++ "TX:" ++ decimal n ++ suf` designates `n` as soon as `pre`
+holds no earlier `TX:<digit>` and `suf` does not go on with a digit -/
+theorem taxid_TX_roundtrip (pre suf : Bytes) (n : Nat) (h : n < 2 ^ 63) (hpre : findTX pre = none)
+    (hsuf : ∀ c, suf.head? = some c → isDigit c = false) :
+    parseTaxidString (pre ++ 84 :: 88 :: 58 :: (showNat n ++ suf)) = .id n := by
+  obtain ⟨d, ds, e, hd, hds⟩ := showNat_shape n
+  have herr : atoi (pre ++ 84 :: 88 :: 58 :: (showNat n ++ suf)) = .err :=
+    atoi_err _ ⟨84, by simp, by decide, by decide, by decide⟩
+  have hall : ∀ c ∈ d :: ds, isDigit c = true := by
+    intro c hc
+    rcases List.mem_cons.1 hc with h1 | h1
+    · rw [h1]; exact hd
+    · exact hds c h1
+  have hfind : findTX (pre ++ 84 :: 88 :: 58 :: (showNat n ++ suf)) = some (showNat n) := by
+    rw [e, List.cons_append, findTX_append pre d (ds ++ suf) hpre hd, ← List.cons_append,
+      takeWhile_digits (d :: ds) suf hall hsuf]
+  have hmin : min n (2 ^ 63 - 1) = n := by omega
+  simp [parseTaxidString, herr, hfind, digitsVal_showNat, hmin]
+
+open ObiVerif.TaxLoad in
+/-- … and `Taxon` of both forms is `Taxon(n)` -/
+theorem taxonOfString_forms (pre suf : Bytes) (n : Nat) (h : n < 2 ^ 63) (hpre : findTX pre = none)
+    (hsuf : ∀ c, suf.head? = some c → isDigit c = false) :
+    taxonOfString t (showNat n) = resolve t n ∧
+    taxonOfString t (pre ++ 84 :: 88 :: 58 :: (showNat n ++ suf)) = resolve t n := by
+  simp [taxonOfString, taxid_decimal_roundtrip n h, taxid_TX_roundtrip pre suf n h hpre hsuf]
+
+open ObiVerif.TaxLoad in
+/-- a text that is not a number and holds no `TX:<digit>` is a parse error -/
+theorem taxonOfString_noparse (s : Bytes) (h1 : atoi s = .err) (h2 : findTX s = none) :
+    parseTaxidString s = .noparse ∧ taxonOfString t s = none := by
+  simp [taxonOfString, parseTaxidString, h1, h2]
+
+/-! ## 10. the NCBI taxdump loader builds the declared tree
+
+`decl` : the `(taxid, parent, rank)` triples of the lines of `nodes.dmp`, `mdecl` the `(old, new)` pairs
+of `merged.dmp`, in file order. -/
+
+open ObiVerif.TaxLoad in
+/-- `LoadNCBITaxDump` on files whose csv records are, one for one, the declarations (first two fields
+numbers, rank = third field trimmed), the csv reader having stopped for whatever reason but a quoted
+field: the `nodes` map is built from `decl`, the aliases from `mdecl` -/
+theorem loadDump_declared (nodesF namesF mergedF : Bytes) (decl : List (Nat × Nat × Bytes))
+    (mdecl : List (Nat × Nat)) (names : List (Nat × Bytes))
+    (hn : (csvRead nodesF).stop ≠ .quoted) (hnr : AllRec NodeRec (csvRead nodesF).recs decl)
+    (hnames : loadNameLines (fun k => (lookupNode decl.reverse k).isSome) (rawLines namesF) [] = .ok names)
+    (hm : (csvRead mergedF).stop ≠ .quoted) (hmr : AllRec MergedRec (csvRead mergedF).recs mdecl) :
+    loadDump nodesF namesF mergedF = .ok ⟨decl.reverse, names, mdecl⟩ := by
+  have h1 := loadNodeRecs_ok _ decl [] hnr
+  have h2 := loadMergedRecs_ok _ mdecl hmr
+  simp only [List.append_nil] at h1
+  simp [loadDump, csvOk, hn, hm, h1, h2, hnames]
+
+open ObiVerif.TaxLoad in
+/-- every node is as the dump declares it: the last line given for a taxid fixes its parent and rank
+(with distinct taxids: every line), a taxid without line is not a node, and `ids` lists every node -/
+theorem loaded_nodes_declared (L : Loaded) (decl : List (Nat × Nat × Bytes)) (hL : L.nodes = decl.reverse) :
+    (∀ a b id p rk, decl = a ++ (id, p, rk) :: b → (∀ d ∈ b, d.1 ≠ id) →
+      L.taxo.node id = some ⟨p, toStr rk⟩) ∧
+    ((decl.map (·.1)).Nodup → ∀ id p rk, (id, p, rk) ∈ decl → L.taxo.node id = some ⟨p, toStr rk⟩) ∧
+    (∀ id, (∀ d ∈ decl, d.1 ≠ id) → L.taxo.node id = none) ∧
+    (∀ x n, L.taxo.node x = some n → x ∈ L.taxo.ids) := by
+  refine ⟨?_, ?_, ?_, L.ids_complete⟩
+  · intro a b id p rk e hb
+    rw [L.taxo_node]; simp only [Loaded.base, hL, e, lookupNode_last a b id p rk hb, Option.map]
+  · intro hnd id p rk hmem
+    rw [L.taxo_node]; simp only [Loaded.base, hL, lookupNode_nodup decl hnd id p rk hmem, Option.map]
+  · intro id hno
+    have : lookupNode decl.reverse id = none := by
+      rw [lookupNode_none_iff]; intro d hd; exact hno d (List.mem_reverse.1 hd)
+    rw [L.taxo_node]; simp only [Loaded.base, hL, this, Option.map]
+
+open ObiVerif.TaxLoad in
+/-- merged ids resolve as aliases: the loaded alias table is `AddNewAlias` applied in file order
+(`alias_resolves` describes each step), it never touches the tree, and whatever a taxid resolves to is
+a node of the dump -/
+theorem loaded_aliases (L : Loaded) :
+    L.taxo = addAliases L.base L.aliases ∧ L.taxo.node = L.base.node ∧ AliasOK L.taxo ∧
+    (∀ id x, resolve L.taxo id = some x → ∃ m, L.base.node x = some m) :=
+  ⟨rfl, L.taxo_node, L.taxo_aliasOK, fun _ _ h => resolve_lands_on_node L.base (fun _ => rfl) L.aliases h⟩
+
+open ObiVerif.TaxLoad in
+/-- a line of `nodes.dmp` with a missing field or a field that is not a number makes the loader panic,
+whatever the lines before it -/
+theorem loadNodes_panic (good : List (List Bytes)) (decl : List (Nat × Nat × Bytes)) (bad : List Bytes)
+    (rest : List (List Bytes)) (hg : AllRec NodeRec good decl)
+    (hb : bad.length < 3 ∨ ∃ f ∈ bad.take 2, num f = .error .panic)
+    (hu : ∀ f ∈ bad.take 2, num f ≠ .error .unmodelled) :
+    loadNodeRecs (good ++ bad :: rest) [] = .error .panic :=
+  loadNodeRecs_panic good decl [] bad rest hg hb hu
+
+/-! non-vacuity and tests of the new sections on concrete values -/
+
+section
+open ObiVerif.TaxLoad
+
+example : ∃ l, filterSubclade exT 6 2 [1, 2, 3, 4, 5] = .ok l ∧ (∀ x, x ∈ l ↔ x ∈ [1, 2, 3, 4, 5] ∧ Anc exT 2 x) ∧
+    l.Sublist [1, 2, 3, 4, 5] ∧ ([1, 2, 3, 4, 5].Nodup → l.Nodup) :=
+  filterSubclade_spec exT_wf exT_fuel 2 [1, 2, 3, 4, 5] (by
+    intro x hx; rw [exT_node]
+    simp only [List.mem_cons, List.not_mem_nil, or_false] at hx
+    rcases hx with h | h | h | h | h <;> subst h <;> exact ⟨_, rfl⟩)
+
+example : filterSubclade exT 6 2 [1, 2, 3, 4, 5] = .ok [2, 3, 4] ∧ filterRank exT "species" [1, 2, 3, 4, 5] = [3, 4] ∧
+    filterBelonging exT 6 [5, 3] [1, 2, 3, 4, 5] = .ok [3, 5] ∧ filterBelonging exT 6 [] [1, 2] = .ok [1, 2] := ⟨rfl, rfl, rfl, rfl⟩
+
+-- "12", "TX:12", "Homo [TX:12]", "TX:x TX:12", "x", "+7", "-7", " 7"
+example : parseTaxidString [49, 50] = .id 12 ∧ parseTaxidString [84, 88, 58, 49, 50] = .id 12 ∧
+    parseTaxidString [72, 111, 109, 111, 32, 91, 84, 88, 58, 49, 50, 93] = .id 12 ∧
+    parseTaxidString [84, 88, 58, 120, 32, 84, 88, 58, 49, 50] = .id 12 ∧ parseTaxidString [120] = .noparse ∧
+    parseTaxidString [43, 55] = .id 7 ∧ parseTaxidString [45, 55] = .neg ∧ parseTaxidString [32, 55] = .noparse := by decide
+
+example : parseTaxidString ([72, 32, 91] ++ 84 :: 88 :: 58 :: (showNat 9606 ++ [93])) = .id 9606 :=
+  taxid_TX_roundtrip [72, 32, 91] [93] 9606 (by decide) (by decide) (by decide)
+
+-- nodes.dmp = "1\t|\t1\t|\tno rank\t|\n2 | 1 | genus |\n# c\n\n3|2|species|" ; merged.dmp = "9|3|\n10|9|\n"
+def exNodesF : Bytes := [49, 9, 124, 9, 49, 9, 124, 9, 110, 111, 32, 114, 97, 110, 107, 9, 124, 10,
+  50, 32, 124, 32, 49, 32, 124, 32, 103, 101, 110, 117, 115, 32, 124, 10, 35, 32, 99, 10, 10,
+  51, 124, 50, 124, 115, 112, 101, 99, 105, 101, 115, 124]
+def exNamesF : Bytes := [51, 124, 72, 46, 115, 124, 124, 115, 99, 105, 101, 110, 116, 105, 102, 105, 99, 32, 110, 97, 109, 101, 124, 10]
+def exMergedF : Bytes := [57, 124, 51, 124, 10, 49, 48, 124, 57, 124, 10]
+
+example : loadDump exNodesF exNamesF exMergedF =
+    .ok ⟨[(1, 1, [110, 111, 32, 114, 97, 110, 107]), (2, 1, [103, 101, 110, 117, 115]), (3, 2, [115, 112, 101, 99, 105, 101, 115])].reverse,
+      [(3, [72, 46, 115])], [(9, 3), (10, 9)]⟩ :=
+  loadDump_declared exNodesF exNamesF exMergedF _ _ _ (by decide)
+    (by
+      have : (csvRead exNodesF).recs = [[[49, 9], [49, 9], [110, 111, 32, 114, 97, 110, 107, 9], []],
+        [[50, 32], [49, 32], [103, 101, 110, 117, 115, 32], []], [[51], [50], [115, 112, 101, 99, 105, 101, 115], []]] := by decide
+      rw [this]
+      refine .cons ⟨_, _, _, _, rfl, by decide, by decide, by decide⟩ (.cons ⟨_, _, _, _, rfl, by decide, by decide, by decide⟩
+        (.cons ⟨_, _, _, _, rfl, by decide, by decide, by decide⟩ .nil)))
+    (by decide) (by decide)
+    (by
+      have : (csvRead exMergedF).recs = [[[57], [51], []], [[49, 48], [57], []]] := by decide
+      rw [this]
+      exact .cons ⟨_, _, _, rfl, by decide, by decide⟩ (.cons ⟨_, _, _, rfl, by decide, by decide⟩ .nil))
+
+-- damaged files: a bare quote or a change of the number of fields ends the loading silently, a bad number panics
+example : (csvRead [49, 124, 49, 124, 10, 50, 124, 34, 124, 10]).stop = .quoted ∧
+    (csvRead [49, 124, 49, 124, 10, 50, 124, 49, 34, 124, 10, 51, 124, 49, 124, 10]).stop = .bareQuote ∧
+    (csvRead [49, 124, 49, 124, 10, 50, 124, 49, 10, 51, 124, 49, 124, 10]).stop = .fieldCount ∧
+    ((csvRead [49, 124, 49, 124, 10, 50, 124, 49, 10, 51, 124, 49, 124, 10]).recs.length = 1) := by decide
+
+end
 
 end ObiVerif.Props.C14
